@@ -85,7 +85,10 @@
 
 (define (list-queue-set-list! list-queue list . o)
   (list-queue-list-set! list-queue list)
-  (list-queue-last-set! list-queue (if (pair? o) (car o) (last-pair list))))
+  (list-queue-last-set! list-queue
+                        (cond ((pair? o) (car o))
+                              ((pair? list) (last-pair list))
+                              (else '()))))
 
 (define (list-queue-concatenate list-of-queues)
   (make-list-queue (list-copy (append-map list-queue-list list-of-queues))))
